@@ -608,11 +608,135 @@ def gen_bounds(repo):
     return '\n'.join(L) + '\n'
 
 
+# ----------------------------------------------------------------------------- T2b: state constants
+
+def gen_state(repo):
+    notes = []
+    changed = []
+    packed = read(repo, 'src/state/packed.rs')
+    pot = read(repo, 'src/state/potential.rs')
+    ljs = read(repo, 'src/shape/lj_shape.rs')
+
+    def norm(x):
+        return re.sub(r'\s+', '', x or '')
+
+    def bexpr_or(text, default, where):
+        try:
+            return to_bexpr(text)
+        except Exception as e:
+            notes.append('%s: %s' % (where, e))
+            return default
+
+    L = ['/- GENERATED by tools/pvtx.py from src/state/packed.rs, src/state/potential.rs, src/shape/lj_shape.rs — do not edit. -/',
+         'import Model.Expr', 'namespace PV.Generated', '']
+
+    # --- check_intersection: shell rule and prefilter
+    body = fn_body(packed, 'check_intersection') or ''
+    mh = re.search(r'let\s+height\s*=\s*f64::min\(\s*self\.cell\.a\(\)\s*,\s*self\.cell\.b\(\)\s*\)\s*\*\s*self\.cell\.angle\(\)\.sin\(\)\s*;', body)
+    mk = re.search(r'let\s+periodic_range\s*=\s*f64::ceil\(\s*([^;]*?)\s*\*\s*self\.shape\.enclosing_radius\(\)\s*/\s*height\s*\)\s*as\s+i64\s*;', body)
+    shell = '(.lit 2 1)'
+    if not mh or not mk:
+        notes.append('check_intersection: shell rule is not ceil(k * R / (min(a,b) * sin angle)) as i64')
+    else:
+        shell = bexpr_or(mk.group(1), shell, 'shell factor')
+    mr = re.search(r'let\s+radius_sq\s*=\s*self\.shape\.enclosing_radius\(\)\.mul\(\s*([^)]*)\)\.powi\(2\)\s*;', body)
+    pre = '(.lit 2 1)'
+    if not mr:
+        notes.append('check_intersection: prefilter radius is not (R * k)^2')
+    else:
+        pre = bexpr_or(mr.group(1), pre, 'prefilter factor')
+    if not re.search(r'if\s+distance\s*<=\s*radius_sq\b', body):
+        notes.append('check_intersection: prefilter comparison is not `distance <= radius_sq`')
+    if not re.search(r'periodic_images\(\s*position\s*,\s*periodic_range\s*,\s*false\s*\)', body):
+        notes.append('check_intersection: image loop is not periodic_images(position, periodic_range, false)')
+    if not re.search(r'\.skip\(\s*index\s*\+\s*1\s*\)', body):
+        notes.append('check_intersection: in-cell loop is not skip(index + 1)')
+    L.append('/-- `check_intersection`: shells = ceil(factor · R / (min(a,b) · sin angle)); prefilter (R · factor)² -/')
+    L.append('def packedShellFactor : BExpr := ' + shell)
+    L.append('def packedPrefilterFactor : BExpr := ' + pre)
+
+    # --- PackedState::score
+    sc = norm(fn_body(packed, 'score'))
+    if sc != 'ifself.check_intersection(){None}else{Some((self.shape.area()*self.total_shapes()asf64)/self.cell.area())}':
+        changed.append('PackedState::score')
+
+    # --- initialise factors
+    def init_size(src, where, default):
+        m = re.search(r'fn\s+initialise\b', src)
+        b = fn_body(src, 'initialise') or ''
+        mm = re.search(r'let\s+max_cell_size\s*=\s*([^;]+);', b)
+        if not mm:
+            notes.append(where + ': max_cell_size not found')
+            return default
+        if not re.search(r'Cell2::from_family\(\s*wallpaper\.family\s*,\s*max_cell_size\s*\)', b):
+            notes.append(where + ': cell is not from_family(wallpaper.family, max_cell_size)')
+        if not re.search(r'isopointal\.iter\(\)\.map\(OccupiedSite::from_wyckoff\)', b):
+            notes.append(where + ': sites are not from_wyckoff')
+        return bexpr_or(mm.group(1), default, where)
+    d4 = '(.mul (.mul (.lit 4 1) (.var "enclosing_radius")) (.var "num_shapes"))'
+    d2 = '(.mul (.mul (.lit 2 1) (.var "enclosing_radius")) (.var "num_shapes"))'
+    L.append('/-- `initialise`: initial cell length as a function of the enclosing radius and copy count -/')
+    L.append('def packedInitSize : BExpr := ' + init_size(packed, 'PackedState::initialise', d4))
+    L.append('def ljInitSize : BExpr := ' + init_size(pot, 'PotentialState::initialise', d2))
+
+    # --- PotentialState::score: shells, weight, normalisation
+    body = fn_body(pot, 'score') or ''
+    ms = re.search(r'\.periodic_images\(\s*position\s*,\s*(-?\d+)\s*,\s*false\s*\)', body)
+    shells = 3
+    if not ms:
+        notes.append('PotentialState::score: periodic_images(position, <int literal>, false) not found')
+    else:
+        shells = int(ms.group(1))
+    sums = re.findall(r'sum\s*\+=\s*([^;]+);', body)
+    weight = '(.lit 1 1)'
+    if len(sums) != 2 or norm(sums[0]) != 'shape1.energy(&shape2)':
+        notes.append('PotentialState::score: expected two accumulation statements, in-cell unweighted')
+    else:
+        mw = re.match(r'^(.*?)\*\s*shape1\.energy\(&shape2\)$', sums[1].strip())
+        if mw:
+            weight = bexpr_or(mw.group(1), weight, 'periodic weight')
+        elif norm(sums[1]) == 'shape1.energy(&shape2)':
+            weight = '(.lit 1 1)'
+        else:
+            notes.append('PotentialState::score: unrecognised periodic accumulation ' + sums[1].strip())
+    if not re.search(r'Some\(\s*-sum\s*/\s*self\.total_shapes\(\)\s+as\s+f64\s*\)', body):
+        notes.append('PotentialState::score: result is not Some(-sum / total_shapes)')
+    if not re.search(r'\.skip\(\s*index\s*\+\s*1\s*\)', body):
+        notes.append('PotentialState::score: in-cell loop is not skip(index + 1)')
+    L.append('/-- `PotentialState::score`: image shells, weight of a periodic pair -/')
+    L.append('def ljShells : Int := %d' % shells)
+    L.append('def ljPeriodicWeight : BExpr := ' + weight)
+
+    # --- LJShape2::from_trimer constants
+    body = fn_body(ljs, 'from_trimer') or ''
+    msig = re.search(r'sigma:\s*([^,]+?)\s*\*\s*r\s*,', body)
+    mcut = re.search(r'cutoff:\s*Some\(\s*([^)]+)\)', body)
+    sig = bexpr_or(msig.group(1), '(.lit 2 1)', 'trimer sigma') if msig else None
+    cut = bexpr_or(mcut.group(1), '(.lit 7 2)', 'trimer cutoff') if mcut else None
+    if sig is None:
+        notes.append('LJShape2::from_trimer: sigma factor not found')
+        sig = '(.lit 2 1)'
+    if cut is None:
+        notes.append('LJShape2::from_trimer: cutoff not found')
+        cut = '(.lit 7 2)'
+    L.append('/-- `LJShape2::from_trimer`: σ = factor · radius, cutoff on every particle -/')
+    L.append('def ljTrimerSigmaFactor : BExpr := ' + sig)
+    L.append('def ljTrimerCutoff : BExpr := ' + cut)
+    L.append('')
+    L.append('def stateHandModelledChanged : List String := [' + ', '.join(lean_str(k) for k in changed) + ']')
+    L.append('/-- constructs the translator did not recognise (must be empty) -/')
+    L.append('def stateUnrecognised : List String := [' + ', '.join(lean_str(x) for x in notes) + ']')
+    L.append('')
+    L.append('end PV.Generated')
+    return '\n'.join(L) + '\n'
+
+
 # ----------------------------------------------------------------------------- main
 
 GENERATORS = {
     'Tables.lean': gen_tables,
     'Bounds.lean': gen_bounds,
+    'State.lean': gen_state,
 }
 
 
